@@ -291,8 +291,8 @@ class PeerCodec:
         s.next_num_out = 1
         m[FTag.MsgSeqNum] = seq
         raw = self.codec.encode(m, s, raw_seq_num=True)
-        if hdr in ("nosender", "notarget", "noseq", "badbs"):
-            raw = _strip(raw, {"nosender": "49", "notarget": "56", "noseq": "34", "badbs": None}[hdr],
+        if hdr in ("nosender", "notarget", "noseq", "badbs", "nohb", "noenc"):
+            raw = _strip(raw, {"nosender": "49", "notarget": "56", "noseq": "34", "badbs": None, "nohb": "108", "noenc": "98"}[hdr],
                          bs="FIX.4.2" if hdr == "badbs" else None)
         return raw.encode("latin-1")
 
